@@ -20,7 +20,7 @@ def oracle(ctx):
 
 def check(ctx):
     return core.standard_check(ctx, ['Blocks', 'Filter', 'Consts'], MODS,
-                               [('sysl', 1500, 20000), ('line', 800, 8000), ('gate', 150, 2000)], oracle, LEVEL_NOTE, ASSUME)
+                               [('sysl', 1500, 20000), ('line', 800, 8000), ('gate', 150, 2000), ('proc', 400, 6000)], oracle, LEVEL_NOTE, ASSUME)
 
 
 def replay(ctx, data):
